@@ -39,6 +39,8 @@ def check(repo, col, tier):
     from . import c11 as _c11, c19 as _c19
     col.rule("R-C10-select", "a synapse-type name selects the view's synapses of that type (by name, on the base's registry)", 3)
     _c11._named(repo, col, "R-C10-select")
+    col.rule("R-C10-edges", "a view selected by nodes shows an edge iff both of its ends are in view (set through the view touches no other synapse)", 3)
+    _c11._edges(repo, col, "R-C10-edges")
     col.rule("R-C10-classify", "a trainable is intersected with the view's rows of its own table (nodes vs edges)", 3)
     _c19._classify(repo, col, "R-C10-classify")
     col.rule("R-C10-viewtrain", "a view shows / deletes its own half of the trainables", 5)
